@@ -17,7 +17,9 @@
 (*   outdir   the output directory is empty, or already holds the result   *)
 (*            of a previous run over the same input                        *)
 (*   earlier  what the PROCESS did before this run: nothing (a fresh        *)
-(*            `python -m pydoctor`), or another pydoctor run (sphinx        *)
+(*            `python -m pydoctor`), or a pydoctor run over ANOTHER project  *)
+(*            (harness: another root of the universe, same way of naming    *)
+(*            the sources) (sphinx                                          *)
 (*            extension, API use: pydoctor.sphinx_ext.build_apidocs calls   *)
 (*            driver.main once per configured project).  ChildTable.last_id *)
 (*            (templatewriter/pages/table.py:62) is a class attribute that  *)
@@ -62,7 +64,11 @@ CONSTANTS MaxRoots,   \* enumeration bound on the number of roots on the command
 
 (* The file-system universe the harness materialises.  Names are numbers   *)
 (* whose order is the order of the real names (the harness keeps the map). *)
-(*   roots : <<[id, pkg]>>            candidate roots                      *)
+(*   roots : <<[id, pkg, name, dupof]>>  candidate roots; name = number of *)
+(*           the module name; dupof = id of the root in ANOTHER directory  *)
+(*           that has the same module name (0 = none): such a root is only *)
+(*           enumerated through `extra`                                    *)
+(*   extra : <<root sequences>>  inputs enumerated whatever MaxRoots       *)
 (*   dirs  : <<[path, ents]>>         path = <<root, sub, ...>>,           *)
 (*           ents = <<[id, kind]>>, kind in init|mod|pkg|dir|dot|other     *)
 (*   sites : <<[name, mod, how, elems]>>  collections of names that reach  *)
@@ -85,11 +91,15 @@ CONSTANTS MaxRoots,   \* enumeration bound on the number of roots on the command
 (*           numbered expandable items).  tpl: --template-dir with two     *)
 (*           footer templates whose names differ only by case: the scan is *)
 (*           sorted (Template.fromdir, fix 731f7f4), the one sorted last   *)
-(*           is used whatever the listing order.  permute: listing orders other    *)
+(*           is used whatever the listing order; and a SECOND directory:   *)
+(*           both provide header.html, the directory given last wins       *)
+(*           (driver.make iterates options.templatedir, a list).  viacfg:  *)
+(*           the sources are named by `add-package` in a configuration     *)
+(*           file instead of on the command line.  permute: listing orders other    *)
 (*           than the sorted one, and the second-run-of-a-process case,    *)
 (*           are explored for this variant                                 *)
 Universe == IF Source = "enum" THEN JsonDeserialize(IOEnv.C18_UNIVERSE)
-            ELSE [roots |-> <<>>, dirs |-> <<>>, sites |-> <<>>, variants |-> <<>>]
+            ELSE [roots |-> <<>>, dirs |-> <<>>, sites |-> <<>>, variants |-> <<>>, extra |-> <<>>]
 \* observed runs: <<[reg, u, roots, named, setOrder, listing (seq aligned with u.dirs), outdir]>>
 FileRuns == IF Source = "file" THEN JsonDeserialize(IOEnv.C18_RUNS) ELSE <<>>
 
@@ -98,8 +108,8 @@ InjSeqs(S, n) == UNION {{s \in [1..k -> S] : \A i, j \in 1..k : i # j => s[i] # 
 
 \* ---------------------------------------------------------------- projects (the inputs)
 EnumProjects ==
-  LET ids == {Universe.roots[i].id : i \in DOMAIN Universe.roots}
-  IN  SetToSeq({x \in [roots : InjSeqs(ids, MaxRoots), named : BOOLEAN, var : Rng(Universe.variants)] :
+  LET ids == {Universe.roots[i].id : i \in {j \in DOMAIN Universe.roots : Universe.roots[j].dupof = 0}}
+  IN  SetToSeq({x \in [roots : InjSeqs(ids, MaxRoots) \cup Rng(Universe.extra), named : BOOLEAN, var : Rng(Universe.variants)] :
                   Len(x.roots) <= x.var.upto})
 NProjects == IF Source = "enum" THEN Len(EnumProjects) ELSE Len(FileRuns)
 \* one register per INPUT; observed runs carry the number of their input in `reg`
@@ -136,6 +146,14 @@ SidebarBase == 0
 BuildTime == IF EpochFixes(var) THEN <<0, var.epoch>> ELSE <<1, clock>>     \* <<1, c>>: now()
 
 RootRec(r) == CHOOSE x \in Rng(u.roots) : x.id = r
+\* Two roots with the same module name (pydoctor lib build/app src/app): the last one wins, the first leaves the system
+\* with everything it contains, the modules still waiting to be processed keep their order
+\* (System._handleDuplicateModule, model.py:1310-1326)
+SameName(r, s) == RootRec(r).name = RootRec(s).name
+RECURSIVE EffFrom(_)
+EffFrom(i) == IF i > Len(roots) THEN <<>>
+              ELSE (IF \E j \in (i + 1)..Len(roots) : SameName(roots[i], roots[j]) THEN <<>> ELSE <<roots[i]>>) \o EffFrom(i + 1)
+Eff == EffFrom(1)         \* System.rootobjects at the end of step 2
 DirRec(path) == CHOOSE d \in Rng(u.dirs) : d.path = path
 ById(a, b) == a.id < b.id
 Identity(ents) == SortSeq(ents, ById)
@@ -173,7 +191,8 @@ AddRoot ==
   /\ pc = "add" /\ stack = <<>> /\ nroot < Len(roots)
   /\ LET r == roots[nroot + 1] IN
        /\ nroot' = nroot + 1
-       /\ mods' = Append(mods, <<r>>)
+       /\ LET replaced == {roots[j] : j \in {k \in 1..nroot : SameName(roots[k], r)}}
+          IN mods' = Append(SelectSeq(mods, LAMBDA m : m[1] \notin replaced), <<r>>)
        /\ IF RootRec(r).pkg
           THEN \/ \E perm \in ListChoices(<<r>>) :
                     /\ stack' = <<OpenDir(<<r>>, perm)>>
@@ -218,9 +237,9 @@ AllAdded ==
   /\ UNCHANGED <<pid, u, roots, named, var, clock, phase, nroot, stack, mods, setOrder, siteOrder, listing, outdir, projname, out>>
 
 \* driver.get_system step 3 (driver.py:74-79); root_names is a set (model.py:1020-1022)
-SetChoices == IF phase = "prev" THEN {SortSeq(roots, LAMBDA a, b : a < b)}
+SetChoices == IF phase = "prev" THEN {SortSeq(Eff, LAMBDA a, b : a < b)}
               ELSE IF Source = "file" THEN {FileRuns[pid].setOrder}
-              ELSE SetToSeqs(Rng(roots))
+              ELSE SetToSeqs(Rng(Eff))
 \* the other collections of names: what a site shows, given the modules that are part of the run
 Lt(a, b) == a < b
 SiteRanks(i) == LET el == SelectSeq(u.sites[i].elems, LAMBDA e : e.m \in Rng(mods))
@@ -239,15 +258,15 @@ GuessName ==
   /\ \E so \in SetChoices, sp \in SiteChoices(1) :
        /\ setOrder' = so
        /\ siteOrder' = sp
-       /\ projname' = IF named THEN <<0>> ELSE roots      \* '/'.join over system.rootobjects (driver.py:76)
+       /\ projname' = IF named THEN <<0>> ELSE Eff        \* '/'.join over system.rootobjects (driver.py:76)
   /\ pc' = "write"
   /\ UNCHANGED <<pid, u, roots, named, var, clock, phase, nroot, stack, mods, listing, outdir, out>>
 
 \* IndexPage.rootkind (summary.py:318): sorted(set(kinds of the roots), key=name); MODULE = 1 < PACKAGE = 2
-RootKinds == SortSeq(SetToSeq({IF RootRec(r).pkg THEN 2 ELSE 1 : r \in Rng(roots)}), Lt)
+RootKinds == SortSeq(SetToSeq({IF RootRec(r).pkg THEN 2 ELSE 1 : r \in Rng(Eff)}), Lt)
 SitesOf(m) == LET idx == SelectSeq([i \in 1..Len(u.sites) |-> i], LAMBDA i : u.sites[i].mod = m)
               IN [k \in DOMAIN idx |-> SiteOut(idx[k])]
-ModuleOfPage(f) == IF f = <<0, 0>> THEN <<roots[1]>> ELSE Tail(f)
+ModuleOfPage(f) == IF f = <<0, 0>> THEN <<Eff[1]>> ELSE Tail(f)
 
 (* The written tree.  File ids are sequences of numbers:                   *)
 (*   <<0, k>>       index.html (k=0) and the summary pages                 *)
@@ -256,12 +275,12 @@ ModuleOfPage(f) == IF f = <<0, 0>> THEN <<roots[1]>> ELSE Tail(f)
 (*                  not for a root named `index`, 38e26a0 - no such root   *)
 (*                  in the universes)                                      *)
 Summary == {<<0, k>> : k \in 1..5}    \* moduleIndex classIndex nameIndex undoccedSummary all-documents
-Single == Len(roots) = 1
-PageFile(m) == IF Single /\ m = <<roots[1]>> THEN <<0, 0>> ELSE <<1>> \o m      \* model.py:236-239
+Single == Len(Eff) = 1
+PageFile(m) == IF Single /\ m = <<Eff[1]>> THEN <<0, 0>> ELSE <<1>> \o m      \* model.py:236-239
 Written ==
   LET pages == IF var.pages = "summary" THEN {}            \* --html-summary-pages (driver.py: writeSummaryPages only)
                ELSE {PageFile(mods[i]) : i \in DOMAIN mods}
-      files == pages \cup Summary \cup (IF Single THEN {<<2, roots[1]>>} ELSE {<<0, 0>>})
+      files == pages \cup Summary \cup (IF Single THEN {<<2, Eff[1]>>} ELSE {<<0, 0>>})
   IN [f \in files |->
         IF f[1] = 2 THEN [pn |-> <<>>, bt |-> <<>>, body |-> <<<<0, 0>>>>]     \* symlink target
         ELSE IF f = <<0, 5>> THEN [pn |-> projname, bt |-> BuildTime, body |-> mods]             \* allobjects order
@@ -296,7 +315,9 @@ Post == PrintT(ToJson([dependent |-> SetToSeq(Dependent), projects |-> NProjects
 FileList(f) == SetToSeq(DOMAIN f)
 Emit == Done =>
   PrintT(ToJson([pid |-> pid, reg |-> Reg, roots |-> roots, named |-> named, var |-> var, outdir |-> outdir,
+                 eff |-> Eff,
                  footer |-> IF var.tpl THEN "sorted-last" ELSE "default",
+                 header |-> IF var.tpl THEN "last-given" ELSE "default",
                  buildtime |-> BuildTime, idbase |-> IdBase, sidebarbase |-> SidebarBase,
                  setOrder |-> setOrder, listing |-> listing,
                  projname |-> projname, mods |-> mods, files |-> FileList(out),
